@@ -2,7 +2,8 @@
 
 from __future__ import annotations
 
-from ..bufcases import REGIMES, exhaustive_ops, fields, fmt, load_corpus, optv, parse, random_ops
+from ..bufcases import (REGIMES, exhaustive_ops, fields, fmt, load_corpus, make_multi, mfmt, multi_nontrivial, multi_obs,
+                        multi_sim_op, optv, parse, probe_orders, random_multi_ops, random_ops, reduce_multi)
 from ..common import Check
 from ..lockstep import Case, lockstep, replay_case
 from ..simrun import CompSim, fmt_opt
@@ -18,7 +19,8 @@ META = {
     "c17_fwd_clear/c17_pipe_clear, c17_fwd_peek/c17_pipe_peek hold for every history of simultaneous "
     "write/read/peek/clear attempts and every data value; the models are tied to the code by cycle-exact comparison of done "
     "bits, returned data and the three ready signals over all histories up to length 2 from the empty and the full state "
-    "(thorough: also length 3 from the empty state), directed sequences and random regimes at several data widths",
+    "(thorough: also length 3 from the empty state), directed sequences and random regimes at several data widths"
+    " Multi-caller scenarios: a wrapper owning the real component with two AdapterTrans on each of write/read/peek; per cycle each caller attempts independently, the model grants exclusive methods to the first attempting caller in the priority order probed from the real scheduler (c17_callers theorem: at most one caller executes and it sees the single-port outcome), the monitor accepts either winner and checks at-most-one executing caller per exclusive method and exactly-once in-order delivery over the union of all callers.",
     "level_note": "trusted: Lean kernel with axioms propext/Quot.sound(/Classical.choice); Amaranth semantics and pysim; data "
     "layouts flattened to one number; that the manager honours schedule_before (write before read in Forwarder, read before "
     "write in Pipe) is C03/C10's subject and is exercised here through the real TransactionManager.",
@@ -31,13 +33,16 @@ def _layout(widths):
     return [(f"f{i}", w) for i, w in enumerate(widths)]
 
 
-def _sim(cls: str, widths: tuple) -> CompSim:
-    key = (cls, widths)
+def _sim(cls: str, widths: tuple, callers: int = 0) -> CompSim:
+    key = (cls, widths, callers)
     if key not in _sims:
         from transactron.lib.connectors import Forwarder, Pipe
 
         k = Forwarder if cls == "fwd" else Pipe
-        _sims[key] = CompSim(lambda: k(_layout(widths)))
+        if callers:
+            _sims[key] = CompSim(lambda: make_multi(k(_layout(widths)), callers))
+        else:
+            _sims[key] = CompSim(lambda: k(_layout(widths)))
     return _sims[key]
 
 
@@ -50,11 +55,19 @@ def impl(case: Case) -> list[str]:
 
 def _impl(case: Case) -> list[str]:
     d = case.desc
-    sim = _sim(d["cls"], tuple(d["layout"]))
+    callers = d.get("callers", 0)
+    sim = _sim(d["cls"], tuple(d["layout"]), callers)
+    out = ["ok"]
+    if callers:
+        tr = sim.run([multi_sim_op(line, True) for line in case.ops],
+                     extra=lambda dut: [dut.inner.read.ready, dut.inner.peek.ready, dut.inner.write.ready])
+        for r in tr:
+            e = r["_extra"]
+            out.append(f"{multi_obs(r, callers, True)} rdy={e[0]}{e[1]}{e[2]}")
+        return out
     cycs = [parse(line) for line in case.ops]
     ops = [{"write": w, "read": 0 if r else None, "peek": 0 if p else None, "clear": 0 if c else None} for w, r, p, c in cycs]
     tr = sim.run(ops, extra=lambda dut: [dut.read.ready, dut.peek.ready, dut.write.ready])
-    out = ["ok"]
     for r in tr:
         e = r["_extra"]
         out.append(
@@ -69,6 +82,11 @@ def monitor(case: Case, out: list[str]):
     `written`/`delivered` the values of executed writes/reads since the last clear."""
     fwd = case.desc["cls"] == "fwd"
     name = "Forwarder" if fwd else "Pipe"
+    if case.desc.get("callers"):
+        # several transactions call the same method: exclusivity first, then the property on the union of all callers
+        fail, case, out = reduce_multi(case, out)
+        if fail:
+            return f"{name}: {fail}"
     if out[0] != "ok":
         return f"the component does not elaborate/simulate: {out[0]}"
     buf = None
@@ -139,6 +157,8 @@ def nontrivial(case: Case, out: list[str]) -> bool:
     """a cycle in which read and write both execute (forwarding / pass-through), or clear coincides with a write"""
     if out[0] != "ok":
         return False
+    if case.desc.get("callers"):
+        return multi_nontrivial(case, out)
     for obs in out[1:]:
         f = fields(obs)
         if f["w"] == "1" and (f["r"] != "-" or f["c"] == "1"):
@@ -153,6 +173,29 @@ def _mk(cls: str, widths: tuple, cycs, tag: str) -> Case:
         {"component": "Forwarder" if cls == "fwd" else "Pipe", "cls": cls, "layout": list(widths)},
         tag,
     )
+
+
+def _mk_multi(cls: str, widths: tuple, lines: list[str], tag: str, callers: int = 2) -> Case:
+    pw, pr = probe_orders(_sim(cls, widths, callers), callers)
+    return Case(
+        f"cfg cls={cls} w={sum(widths)} callers={callers} pw={','.join(map(str, pw))} pr={','.join(map(str, pr))}",
+        lines,
+        {"component": "Forwarder" if cls == "fwd" else "Pipe", "cls": cls, "layout": list(widths), "callers": callers},
+        tag,
+    )
+
+
+def gen_multi(ctx: Check, cls: str) -> list[Case]:
+    """two independent transactions on each of write / read / peek of the same component"""
+    rng = ctx.rng("multi-" + cls)
+    cases = []
+    for lay in ctx.pick([(4,), (8,)], [(1,), (4,), (8,), (3, 5)]):
+        width = sum(lay)
+        # everybody asks every cycle; then independent random attempts
+        cases.append(_mk_multi(cls, lay, random_multi_ops(rng, ctx.pick(40, 300), width, 1.0, 1.0, 1.0, 0.05), "directed"))
+        for reg in REGIMES[: ctx.pick(4, 7)]:
+            cases.append(_mk_multi(cls, lay, random_multi_ops(rng, ctx.pick(80, 800), width, *reg), "random"))
+    return cases
 
 
 def gen_cases(ctx: Check, cls: str) -> list[Case]:
@@ -179,6 +222,10 @@ def gen_cases(ctx: Check, cls: str) -> list[Case]:
 
 def more_cases(case: Case, rng):
     d = case.desc
+    if d.get("callers"):
+        for k in range(40):
+            yield _mk_multi(d["cls"], tuple(d["layout"]), random_multi_ops(rng, 100, sum(d["layout"]), *REGIMES[k % len(REGIMES)]), "search")
+        return
     for k in range(40):
         yield _mk(d["cls"], tuple(d["layout"]), random_ops(rng, 200, sum(d["layout"]), *REGIMES[k % len(REGIMES)]), "search")
 
@@ -186,12 +233,14 @@ def more_cases(case: Case, rng):
 def run(ctx: Check):
     ctx.rule = (
         "case = (class Forwarder|Pipe, layout, history of attempted write(data)/read/peek/clear per cycle); non-trivial = "
-        "some cycle executes read and write together (forwarding / pass-through) or clear together with a write"
+        "some cycle executes read and write together (forwarding / pass-through) or clear together with a write; "
+        "multi-caller cases (two transactions per method): non-trivial = two callers compete for a ready exclusive method"
     )
     ctx.proof_stage()
     procs = ctx.pick(1, 8)
     # one Lean driver process serves both classes (the cfg line of a case selects the model)
-    cases = gen_cases(ctx, "fwd") + gen_cases(ctx, "pipe")
+    cases = gen_cases(ctx, "fwd") + gen_cases(ctx, "pipe") + gen_multi(ctx, "fwd") + gen_multi(ctx, "pipe")
+    ctx.count("cases_multi_caller", sum(1 for c in cases if c.desc.get("callers")))
     lockstep(ctx, "forwarder+pipe", "C17", cases, impl, monitor, more_cases, nontrivial, procs=procs)
     ctx.exhaustive = False
     ctx.note("all histories up to length 2 over a 24-letter alphabet are enumerated from both buffer states%s; "
